@@ -51,6 +51,7 @@ class _DelegatedWormhole:
 
     def __attrs_post_init__(self):
         self._key = None
+        self._got_welcome = False
 
     def _set_boss(self, boss):
         self._boss = boss
@@ -99,6 +100,11 @@ class _DelegatedWormhole:
 
     # from below
     def got_welcome(self, welcome):
+        # the server greets every connection; like get_welcome() in Deferred
+        # mode, tell the application once, not again after each reconnect
+        if self._got_welcome:
+            return
+        self._got_welcome = True
         self._delegate.wormhole_got_welcome(welcome)
 
     def got_code(self, code):
